@@ -26,7 +26,9 @@
 struct FailSpec { const char* file; size_t line; const char* text; bool located = true; };   // located=false: reported with TestFailure(test, message), i.e. at the test's own location and without leaving the test (as plugins and mocks do)
 struct TestSpec {
     const char* group; const char* name; const char* file; size_t line;
-    bool ignored = false;
+    bool ignored = false;                    // declared with IGNORE_TEST (an IgnoredUtestShell): skipped unless the pass runs ignored tests; its scripted body is what it does when it does run
+    bool flagged = false;                    // UtestShell::setRunIgnored() called on this very shell before the first pass (a no-op for an ordinary test)
+    std::vector<const char*> names;          // the test's name during each pass (direct mode may rename shells between two passes: UtestShell::setTestName); names[0] == name
     int passing_checks = 0;
     std::vector<const char*> prints;         // printed in the body, before any failure
     std::vector<FailSpec> failures;          // [0] raised in the body, [1] (if any) raised in teardown
@@ -51,6 +53,13 @@ struct RunSpec {
     int repackage = 0;                          // JUnit, direct mode: setPackageName called 1 + repackage times
     std::vector<FilterSpec> filters;            // empty: unfiltered run
     bool sep_process = false;                   // every test runs in a forked child (registry flag / -p); only the parent's output is judged
+    // one entry per pass over the registry (runner: one per repetition): is the run-ignored option (TestRegistry::setRunIgnored / -ri) in force during that pass?
+    // direct mode may switch it on between two passes (the option cannot be switched off again)
+    std::vector<bool> passes;
+    bool renames = false;                       // direct mode: some shells are renamed between two passes
+    bool tiny = false;                          // the boundary run: one group with one test
+    bool shell_flags = false;                   // direct mode: some shells got setRunIgnored() individually
+    bool runs_in_pass(const TestSpec& t, size_t p) const { return t.selected && (!t.ignored || passes[p] || t.flagged); }
     const char* keep(const std::string& s) { strings.push_back(s); return strings.back().c_str(); }
 };
 
@@ -107,7 +116,10 @@ static bool model_selected(const std::vector<FilterSpec>& fs, const TestSpec& t)
 }
 
 static void generate(vf::Rng& r, RunSpec& run, bool thorough) {
-    int ngroups = r.range(1, thorough ? 7 : 5);
+    // "any number of groups and tests": 8 % of the runs are the smallest run there is, one group with one test (then the same shell is the last
+    // one started in a pass and the first one started in the next)
+    run.tiny = r.chance(8);
+    int ngroups = run.tiny ? 1 : r.range(1, thorough ? 7 : 5);
     std::set<std::string> seen;
     run.mode = r.chance(35) ? 1 : 0;
     run.repeat = (run.mode == 1 && r.chance(20)) ? 2 : 1;
@@ -120,7 +132,7 @@ static void generate(vf::Rng& r, RunSpec& run, bool thorough) {
         // "any group name": the empty string is a legal boundary value (UtestShell("", ...)); at most one per run (distinct file names)
         do { gname = r.chance(6) ? std::string() : gen_hostile(r, 1, 10, 3); } while (!seen.insert(sanitise_filename(gname)).second);
         GroupSpec gs; gs.name = run.keep(gname);
-        int ntests = r.range(1, thorough ? 8 : 6);
+        int ntests = run.tiny ? 1 : r.range(1, thorough ? 8 : 6);
         std::string gfile = gen_hostile(r, 3, 14, 2) + ".cpp";
         for (int t = 0; t < ntests; t++) {
             run.tests.emplace_back();
@@ -130,8 +142,8 @@ static void generate(vf::Rng& r, RunSpec& run, bool thorough) {
             ts.file = run.keep(r.chance(80) ? gfile : gen_hostile(r, 3, 14, 2));
             ts.line = (size_t) r.range(2, 5000);
             int kind = (int) r.below(100);
-            if (kind < 22) ts.ignored = true;
-            else {
+            if (kind < 22) { ts.ignored = true; kind = r.range(22, 99); }      // an IGNORE_TEST has a body like any other test: it is executed in a run-ignored pass
+            {
                 ts.passing_checks = r.range(0, 3);
                 int np = r.chance(35) ? r.range(1, 2) : 0;
                 for (int p = 0; p < np; p++) ts.prints.push_back(run.keep(gen_hostile(r, 0, 20, 8)));
@@ -171,6 +183,33 @@ static void generate(vf::Rng& r, RunSpec& run, bool thorough) {
         }
         for (auto& t : run.tests) t.selected = model_selected(run.filters, t);
     }
+    // "any pass/fail/ignore pattern": what is ignored depends on the run. 22 % of the runs use the run-ignored option (TestRegistry::setRunIgnored / -ri): every
+    // IGNORE_TEST is then executed (and passes, fails or prints) like an ordinary test and is no ignored test of that run. Direct mode makes one or (25 %,
+    // single-test runs 60 %) two or three passes over the same registry and output object, with the option set before the first pass, between two passes or
+    // never; the runner repeats with -r2. Between two passes of an unfiltered direct run the tests may be renamed (40 % of these runs, single-test runs 70 %;
+    // UtestShell::setTestName on 70 % of the shells): every pass must be reported under the names the tests have during that pass.
+    // 10 % of the direct runs without the option set UtestShell::setRunIgnored() on individual shells (ordinary and ignored ones) instead.
+    {
+        bool ri = r.chance(22);
+        if (run.mode == 1) run.passes.assign((size_t) run.repeat, ri);
+        else {
+            size_t np = r.chance(run.tiny ? 60 : 25) ? (r.chance(30) ? 3 : 2) : 1;
+            size_t ri_from = ri ? r.below(np) : np;                 // the pass before which setRunIgnored() is called
+            for (size_t p = 0; p < np; p++) run.passes.push_back(p >= ri_from);
+            if (!ri && r.chance(10)) {
+                run.shell_flags = true;
+                for (auto& t : run.tests) t.flagged = r.chance(50);
+            }
+        }
+    }
+    for (auto& t : run.tests) t.names.assign(run.passes.size(), t.name);
+    if (run.mode == 0 && run.passes.size() > 1 && run.filters.empty() && r.chance(run.tiny ? 70 : 40)) {
+        for (auto& t : run.tests)
+            for (size_t p = 1; p < run.passes.size(); p++) {
+                t.names[p] = t.names[p - 1];
+                if (r.chance(70)) { t.names[p] = run.keep(r.chance(4) ? std::string() : gen_hostile(r, 1, 10, 3)); run.renames = true; }
+            }
+    }
     // 8 % of the runs (3 % in the thorough tier: a fork of a sanitised process is expensive) execute every test in a forked child
     // (TestRegistry::setRunTestsInSeperateProcess / -p): the child reports to its own copy of the output object, the parent adds one
     // failure per child that failed, exited non-zero or was killed
@@ -178,7 +217,7 @@ static void generate(vf::Rng& r, RunSpec& run, bool thorough) {
         run.sep_process = true;
         static const int SIGS[] = { SIGKILL, SIGTERM, SIGUSR1, SIGUSR2 };
         for (auto& t : run.tests) {
-            if (t.ignored || !t.failures.empty() || !r.chance(50)) continue;
+            if (!t.failures.empty() || !r.chance(50)) continue;
             if (r.chance(50)) { t.death = 1; t.death_arg = r.chance(15) ? 0 : r.range(1, 255); }
             else { t.death = 2; t.death_arg = SIGS[r.below(4)]; }
         }
@@ -223,6 +262,12 @@ class ScriptShell : public UtestShell {
 public:
     TestSpec* s_;
     explicit ScriptShell(TestSpec* s) : UtestShell(s->group, s->name, s->file, s->line), s_(s) {}
+    Utest* createTest() CPPUTEST_OVERRIDE { return new ScriptTest(s_); }
+};
+class ScriptIgnoredShell : public IgnoredUtestShell {      // what IGNORE_TEST declares: an IgnoredUtestShell with a body
+public:
+    TestSpec* s_;
+    explicit ScriptIgnoredShell(TestSpec* s) : IgnoredUtestShell(s->group, s->name, s->file, s->line), s_(s) {}
     Utest* createTest() CPPUTEST_OVERRIDE { return new ScriptTest(s_); }
 };
 
@@ -274,12 +319,15 @@ static std::string truth_json(const RunSpec& run, const std::vector<TestSpec*>& 
             if (run.sep_process) {
                 // what the PARENT's output object gets to see: no printed text, and one failure (reported for the test itself, text not judged here: C11)
                 // for a child that recorded a failure, exited non-zero or was killed
-                if (!t->ignored && t->fails_in_child()) fails.push_back(vf::J().k("file", t->file).k("line", (unsigned long) t->line).raw("text", "null").str());
+                if (t->fails_in_child()) fails.push_back(vf::J().k("file", t->file).k("line", (unsigned long) t->line).raw("text", "null").str());
             } else {
                 for (const FailSpec& f : t->failures) fails.push_back(vf::J().k("file", f.file).k("line", (unsigned long) f.line).k("text", f.text).str());
                 for (const char* p : t->prints) prints.push_back(vf::jstr(p));
             }
-            tests.push_back(vf::J().k("name", t->name).k("file", t->file).k("line", (unsigned long) t->line).k("ignored", t->ignored).k("selected", t->selected)
+            // "failures" / "prints": what the test does in a pass that executes it (an IGNORE_TEST only in a run-ignored pass or when flagged itself)
+            std::vector<std::string> names;
+            for (const char* n : t->names) names.push_back(vf::jstr(n));
+            tests.push_back(vf::J().k("name", t->name).raw("name_in_pass", vf::jarr(names)).k("file", t->file).k("line", (unsigned long) t->line).k("ignored", t->ignored).k("shell_run_ignored", t->flagged).k("selected", t->selected)
                             .raw("failures", vf::jarr(fails)).raw("prints", vf::jarr(prints)).k("executed", t->executed)
                             .k("scripted_failures", (int) t->failures.size()).k("child_end", t->death == 0 ? "as scripted" : t->death == 1 ? "_exit" : "signal").k("child_end_arg", t->death_arg).str());
             k++;
@@ -288,7 +336,9 @@ static std::string truth_json(const RunSpec& run, const std::vector<TestSpec*>& 
     }
     std::vector<std::string> flts;
     for (const FilterSpec& f : run.filters) flts.push_back(vf::J().k("on", f.on_group ? "group" : "name").k("strict", f.strict).k("invert", f.invert).k("text", f.text).str());
-    return vf::J().k("package", run.package).raw("filters", vf::jarr(flts)).k("filtered", !run.filters.empty()).k("separate_process", run.sep_process).k("set_package_calls", 1 + run.repackage).k("mode", run.mode).k("repeat", run.repeat).k("verbose", run.verbose).raw("groups", vf::jarr(groups)).str();
+    std::vector<std::string> passes;
+    for (bool ri : run.passes) passes.push_back(ri ? "true" : "false");
+    return vf::J().k("package", run.package).raw("run_ignored_in_pass", vf::jarr(passes)).raw("filters", vf::jarr(flts)).k("filtered", !run.filters.empty()).k("separate_process", run.sep_process).k("set_package_calls", 1 + run.repackage).k("mode", run.mode).k("repeat", run.repeat).k("verbose", run.verbose).raw("groups", vf::jarr(groups)).str();
 }
 
 static bool has_any(const char* s, const char* set) { return strpbrk(s, set) != nullptr; }
@@ -315,7 +365,8 @@ static void sec_runs(vf::Ctx& c) {
     // addTest prepends: add in reverse so that run order == generation order
     for (size_t i = run.tests.size(); i-- > 0;) {
         TestSpec* t = &run.tests[i];
-        UtestShell* sh = t->ignored ? (UtestShell*) new IgnoredUtestShell(t->group, t->name, t->file, t->line) : (UtestShell*) new ScriptShell(t);
+        UtestShell* sh = t->ignored ? (UtestShell*) new ScriptIgnoredShell(t) : (UtestShell*) new ScriptShell(t);
+        if (t->flagged) sh->setRunIgnored();
         shells.push_back(sh); specs[sh] = t;
         reg.addTest(sh);
     }
@@ -336,7 +387,6 @@ static void sec_runs(vf::Ctx& c) {
 #else
         RecTeamCity out;
 #endif
-        TestResult res(out);
         std::deque<TestFilter> flts;
         TestFilter* gf = NULLPTR; TestFilter* nf = NULLPTR;
         for (const FilterSpec& f : run.filters) {
@@ -349,7 +399,12 @@ static void sec_runs(vf::Ctx& c) {
         if (gf) reg.setGroupFilters(gf);
         if (nf) reg.setNameFilters(nf);
         if (run.sep_process) reg.setRunTestsInSeperateProcess();
-        reg.runAllTests(res);
+        for (size_t p = 0; p < run.passes.size(); p++) {          // as the runner does for -rN: one TestResult per pass, the same output object
+            if (run.passes[p] && !(p && run.passes[p - 1])) reg.setRunIgnored();
+            if (p) for (auto& ss : specs) if (ss.second->names[p] != ss.second->names[p - 1]) const_cast<UtestShell*>(ss.first)->setTestName(ss.second->names[p]);
+            TestResult res(out);
+            reg.runAllTests(res);
+        }
         reg.setGroupFilters(NULLPTR); reg.setNameFilters(NULLPTR);
     } else {
         std::vector<const char*> av; av.push_back("harness");
@@ -361,6 +416,7 @@ static void sec_runs(vf::Ctx& c) {
 #endif
         for (const FilterSpec& f : run.filters) { av.push_back(FLAG[f.on_group][f.strict][f.invert]); av.push_back(f.text); }
         if (run.sep_process) av.push_back("-p");
+        if (run.passes[0]) av.push_back("-ri");
         if (run.verbose) av.push_back("-v");
         if (run.repeat == 2) av.push_back("-r2");
         CommandLineTestRunner runner((int) av.size(), av.data(), &reg);
@@ -371,7 +427,9 @@ static void sec_runs(vf::Ctx& c) {
 
     // execution sanity (not the property itself, but the ground truth relies on it)
     for (TestSpec* t : order) {
-        int want = (t->ignored || !t->selected || run.sep_process) ? 0 : run.repeat;     // separate process: the body runs in the child, the parent's counter stays
+        int want = 0;
+        for (size_t p = 0; p < run.passes.size(); p++) want += run.runs_in_pass(*t, p);
+        if (run.sep_process) want = 0;           // separate process: the body runs in the child, the parent's counter stays
         if (t->executed != want) c.violation("harness:execution-count", std::string("test ran ") + std::to_string(t->executed) + " times, expected " + std::to_string(want));
     }
 
@@ -391,10 +449,13 @@ static void sec_runs(vf::Ctx& c) {
     for (TestSpec* t : order) {
         markup |= has_any(t->group, SPECIAL_XML) || has_any(t->name, SPECIAL_XML) || has_any(t->file, SPECIAL_XML) || has_any(run.package, SPECIAL_XML);
         special_tc |= has_any(t->group, "'|[]\n\r") || has_any(t->name, "'|[]\n\r") || has_any(t->file, "'|[]\n\r");
-        failing |= !t->failures.empty(); ignored |= t->ignored;
+        bool ran = false;                        // an IGNORE_TEST's scripted failures and prints only count where some pass executed it
+        for (size_t p = 0; p < run.passes.size(); p++) { ran |= run.runs_in_pass(*t, p); ignored |= t->ignored && !run.runs_in_pass(*t, p); }
+        if (t->ignored && !ran) { sig += t->group; sig += '\1'; sig += t->name; sig += "\1i\2"; c.count("tests_ignored"); continue; }
+        failing |= !t->failures.empty();
         for (const FailSpec& f : t->failures) { if (strcmp(f.file, t->file) != 0) outside = true; special_tc |= has_any(f.text, "'|[]\n\r") || has_any(f.file, "'|[]\n\r"); markup |= has_any(f.text, SPECIAL_XML); }
-        sig += t->group; sig += '\1'; sig += t->name; sig += '\1'; sig += t->ignored ? 'i' : (char) ('0' + t->failures.size()); sig += '\2';
-        c.count(t->ignored ? "tests_ignored" : t->failures.empty() ? "tests_passing" : "tests_failing");
+        sig += t->group; sig += '\1'; sig += t->name; sig += '\1'; sig += t->ignored ? 'I' : 't'; sig += (char) ('0' + t->failures.size()); sig += '\2';
+        c.count(t->ignored ? "tests_ignored_but_executed" : t->failures.empty() ? "tests_passing" : "tests_failing");
         c.count("failures_raised", t->failures.size());
         c.count("prints", t->prints.size());
     }
@@ -417,11 +478,49 @@ static void sec_runs(vf::Ctx& c) {
     if (run.sep_process) {
         c.count("runs_in_separate_processes");
         for (TestSpec* t : order) {
-            if (t->ignored || !t->selected) continue;
-            c.count("children_forked", (uint64_t) run.repeat);
-            c.count(!t->failures.empty() ? "children_with_failing_checks" : t->death == 2 ? "children_killed_by_signal" : t->death == 1 ? (t->death_arg ? "children_exit_nonzero" : "children_exit_zero_early") : "children_passing", (uint64_t) run.repeat);
-            if (t->fails_in_child()) c.count("parent_side_failures_expected", (uint64_t) run.repeat);
+            uint64_t n = 0;
+            for (size_t p = 0; p < run.passes.size(); p++) n += run.runs_in_pass(*t, p);
+            if (!n) continue;
+            c.count("children_forked", n);
+            c.count(!t->failures.empty() ? "children_with_failing_checks" : t->death == 2 ? "children_killed_by_signal" : t->death == 1 ? (t->death_arg ? "children_exit_nonzero" : "children_exit_zero_early") : "children_passing", n);
+            if (t->fails_in_child()) c.count("parent_side_failures_expected", n);
         }
+    }
+    // the run-ignored dimension: which IGNORE_TESTs were skipped and which executed, in which pass over their shell
+    {
+        bool any_ri = false;
+        for (bool ri : run.passes) any_ri |= ri;
+        if (any_ri) c.count(run.mode ? "runs_with_run_ignored_through_runner_option_ri" : "runs_with_run_ignored_through_TestRegistry_setRunIgnored");
+        if (any_ri) c.count("runs_with_run_ignored");
+        if (run.passes.size() > 1) c.count(run.mode ? "runs_repeated_by_runner" : run.passes.size() == 2 ? "runs_with_two_passes_direct_registry" : "runs_with_three_passes_direct_registry");
+        if (run.passes.size() > 1 && run.passes.back() && !run.passes[0]) c.count("runs_with_run_ignored_switched_on_between_two_passes");
+        if (run.passes.size() > 1 && run.passes[0]) c.count("runs_with_run_ignored_in_all_passes");
+        if (run.tiny) c.count("runs_with_a_single_test");
+        if (run.tiny && run.passes.size() > 1) c.count("runs_with_a_single_test_and_several_passes");
+        if (run.renames) {
+            c.count("runs_with_tests_renamed_between_passes");
+            for (TestSpec* t : order)
+                for (size_t p = 1; p < run.passes.size(); p++) if (t->names[p] != t->names[p - 1]) {
+                    c.count("tests_renamed_between_passes");
+                    if (order.size() == 1) c.count("tests_renamed_and_started_next_after_their_own_previous_start");
+                }
+        }
+        if (run.shell_flags) c.count("runs_with_setRunIgnored_on_single_shells");
+        if (any_ri && run.sep_process) c.count("runs_with_run_ignored_in_separate_processes");
+        if (any_ri && !run.filters.empty()) c.count("runs_with_run_ignored_and_filters");
+        for (TestSpec* t : order) {
+            if (!t->ignored || !t->selected) continue;
+            int execs = 0;
+            for (size_t p = 0; p < run.passes.size(); p++) {
+                if (!run.runs_in_pass(*t, p)) { c.count("ignore_test_passes_skipped"); continue; }
+                bool fails = run.sep_process ? t->fails_in_child() : !t->failures.empty();
+                c.count(execs ? "ignore_test_passes_executed_again" : p ? "ignore_test_passes_executed_first_time_in_a_later_pass" : "ignore_test_passes_executed_first_time_in_first_pass");
+                c.count(fails ? "ignore_test_passes_executed_failing" : "ignore_test_passes_executed_passing");
+                if (t->flagged && !run.passes[p]) c.count("ignore_test_passes_executed_because_of_the_shell_flag");
+                execs++;
+            }
+        }
+        for (TestSpec* t : order) if (!t->ignored && t->flagged) c.count("ordinary_tests_with_setRunIgnored");
     }
 #ifdef VF_JUNIT
     c.count("xml_files_captured", g_files.size());
